@@ -306,12 +306,12 @@ theorem deliver_marked (sp : ReqSt) (m : List Byte) (rid : Nat) (hw : sp.w ≠ 0
   | none => rfl
   | some p => obtain ⟨a, t⟩ := p; rfl
 
-theorem rel_syncLoop (q : List (List Byte)) (x : St) (sp : ReqSt) (n : Nat) (lm : List Call)
+theorem rel_syncLoop (fails : Nat → Bool) (q : List (List Byte)) (x : St) (sp : ReqSt) (n : Nat) (lm : List Call)
     (ls : List (Option Nat × List Byte)) (fuel : Nat) (h : Rel0 x sp) (hn : n = sp.pending.length) (hw : x.idlen ≠ 0)
     (hfuel : q.length < fuel) (hl : lm.map callS = ls) :
-    (syncLoop q x n lm).2.1.map callS = (awaitReplies fuel q sp ls).2 ∧
-    Rel0 (syncLoop q x n lm).1 (awaitReplies fuel q sp ls).1 ∧
-    (awaitReplies fuel q sp ls).1.inq = (syncLoop q x n lm).1.inq := by
+    (syncLoop fails q x n lm).2.1.map callS = (awaitReplies fails fuel q sp ls).2 ∧
+    Rel0 (syncLoop fails q x n lm).1 (awaitReplies fails fuel q sp ls).1 ∧
+    (awaitReplies fails fuel q sp ls).1.inq = (syncLoop fails q x n lm).1.inq := by
   induction q generalizing x sp n lm ls fuel with
   | nil =>
     cases fuel with
@@ -387,7 +387,11 @@ theorem rel_syncLoop (q : List (List Byte)) (x : St) (sp : ReqSt) (n : Nat) (lm 
                 omega
               have e : m.drop sp.w = m.drop x.idlen := by rw [h.w]
               rw [e]
-              exact ih _ _ k _ _ f hrel hcount hw hf' (by rw [List.map_append, hl]; simp [callS])
+              by_cases hfl : fails t = true
+              · simp only [hfl, if_true]
+                exact ⟨by rw [List.map_append, hl]; simp [callS], hrel.setInq ms, by first | rfl | trivial⟩
+              · simp only [hfl, if_false, Bool.false_eq_true]
+                exact ih _ _ k _ _ f hrel hcount hw hf' (by rw [List.map_append, hl]; simp [callS])
           · rw [unmark_eq] at hdec
             have hs2 : (sp.pending.isEmpty = true ∨ sp.w = 0 ∨ m.length < sp.w ∨ ((m.take sp.w).headD 0).toNat < 128 ∨
                 (decode (unmarkS (m.take sp.w))).isNone = true) := by
@@ -395,9 +399,9 @@ theorem rel_syncLoop (q : List (List Byte)) (x : St) (sp : ReqSt) (n : Nat) (lm 
             simp only [syncLoop, awaitReplies, if_neg hstop, if_pos hs2, hb]
             exact ⟨hl, h.setInq _, by first | rfl | trivial⟩
 
-theorem awaitReplies_stop (fuel : Nat) (q : List (List Byte)) (sp : ReqSt) (ls : List (Option Nat × List Byte))
+theorem awaitReplies_stop (fails : Nat → Bool) (fuel : Nat) (q : List (List Byte)) (sp : ReqSt) (ls : List (Option Nat × List Byte))
     (hf : q.length < fuel) (h : sp.pending.isEmpty = true ∨ sp.w = 0) :
-    awaitReplies fuel q sp ls = ({ sp with inq := q }, ls) := by
+    awaitReplies fails fuel q sp ls = ({ sp with inq := q }, ls) := by
   cases fuel with
   | zero => simp at hf
   | succ f =>
@@ -416,15 +420,16 @@ theorem pendingOf_active (es : List Slot) : pendingOf (active es) = pendingOf es
 
 /-- `sync`: the same handler calls as "take replies while a request is outstanding", states stay related
     (the compaction of the handler array is invisible to the spec) -/
-theorem rel_sync (x : St) (sp : ReqSt) (fuel : Nat) (h : Rel x sp) (hf : x.inq.length < fuel) :
-    (sync x).2.map callS = (awaitReplies fuel sp.inq sp []).2 ∧ Rel (sync x).1 (awaitReplies fuel sp.inq sp []).1 := by
+theorem rel_sync (fails : Nat → Bool) (x : St) (sp : ReqSt) (fuel : Nat) (h : Rel x sp) (hf : x.inq.length < fuel) :
+    (sync fails x).2.map callS = (awaitReplies fails fuel sp.inq sp []).2 ∧
+    Rel (sync fails x).1 (awaitReplies fails fuel sp.inq sp []).1 := by
   have hq : sp.inq = x.inq := h.inq
   rw [hq]
   unfold sync
   cases ha : x.arr with
   | none =>
     have hp : sp.pending.isEmpty = true := by rw [h.pending, ha]; rfl
-    rw [awaitReplies_stop fuel x.inq sp [] hf (Or.inl hp)]
+    rw [awaitReplies_stop fails fuel x.inq sp [] hf (Or.inl hp)]
     exact ⟨rfl, ⟨h.w, h.pending, h.cur, rfl, h.distinct⟩⟩
   | some es =>
     simp only []
@@ -436,12 +441,12 @@ theorem rel_sync (x : St) (sp : ReqSt) (fuel : Nat) (h : Rel x sp) (hf : x.inq.l
           have : es = [] := List.eq_nil_of_length_eq_zero a
           rw [h.pending, ha, this]; rfl
         · right; rw [h.w]; exact a
-      rw [awaitReplies_stop fuel x.inq sp [] hf hs]
+      rw [awaitReplies_stop fails fuel x.inq sp [] hf hs]
       exact ⟨rfl, ⟨h.w, by rw [h.pending, ha], h.cur, rfl, by simpa [Distinct, ha] using h.distinct⟩⟩
     · rw [if_neg hz]
       have hw : x.idlen ≠ 0 := fun a => hz (Or.inr a)
       have hn : (active es).length = sp.pending.length := by rw [h.pending, ha]; simp [pendingOf]
-      obtain ⟨h1, h2, h3⟩ := rel_syncLoop x.inq x sp (active es).length [] [] fuel h.rel0 hn hw hf rfl
+      obtain ⟨h1, h2, h3⟩ := rel_syncLoop fails x.inq x sp (active es).length [] [] fuel h.rel0 hn hw hf rfl
       split
       · refine ⟨h1, ⟨h2.w, ?_, h2.cur, h3, ?_⟩⟩
         · simp only [Option.getD_some]; rw [pendingOf_active]; exact h2.pending
